@@ -267,6 +267,8 @@ def check(plan: Dict[str, Any], execution: Dict[str, Any], props: Optional[Set[s
         graphs: List[Optional[Dict[str, Any]]] = []   # per graph index: {"node_list", "edited", "obs", "origin", "bd"}
         faults_here = bool(sess.get("env", {}).get("faults"))
         for r in results:
+            if r.get("skipped"):
+                continue
             o = sess["ops"][r["i"]]
             kind = o["op"]
             fired = [e for e in r["events"] if e.get("ev") == "fault_fired"]
